@@ -23,6 +23,7 @@ BinaryOffsetExact == mode = "bin" => BinImpl(ba, be) = BinSpec(ba, be)
 
 OptRow(o) == [o |-> o, pass |-> SpecPass(A, E, o), dem |-> Demanded(A, E, o), rdem |-> RebuildDemanded(A, E, o),
               diffs |-> IF RebuildDemanded(A, E, o) THEN SpecDiffPairs(A, E, o) ELSE <<>>,
+              effect |-> ExclusionsHadEffect(A, E, o),
               removes |-> o.rem /\ ((\E i \in 1..Len(A) : Has(A[i], "R")) \/ (\E j \in 1..Len(E) : Has(E[j], "R")))]
 EmitCase == EmitRows =>
     IF mode = "text"
